@@ -181,6 +181,420 @@ def _existing_or_empty(es, existing):
     return existing in lv and all(x == existing or x in ("()", "{}", "[]", "tuple()", "dict()", "list()") for x in lv)
 
 
+# ------------------------------------------------------------------------------------------------
+# how a tuple / a mapping is put together along the paths of a function (abstract evaluation, nothing is run)
+# ------------------------------------------------------------------------------------------------
+_NONE, _EMPTY, _FULL = "none", "empty", "nonempty"
+_ALL3 = frozenset((_NONE, _EMPTY, _FULL))
+
+
+class _PState:
+    __slots__ = ("env", "heap", "facts", "flaws")
+
+    def __init__(self, env, heap, facts, flaws):
+        self.env, self.heap, self.facts, self.flaws = env, heap, facts, flaws
+
+    def set(self, **kw):
+        st = _PState(self.env, self.heap, self.facts, self.flaws)
+        for k, v in kw.items():
+            setattr(st, k, v)
+        return st
+
+    def bind(self, name, val):
+        env = dict(self.env)
+        env[name] = val
+        return self.set(env=env)
+
+    def restrict(self, atom, allowed):
+        cur = self.facts.get(atom, _ALL3) & frozenset(allowed)
+        if not cur:
+            return None
+        facts = dict(self.facts)
+        facts[atom] = cur
+        return self.set(facts=facts)
+
+    def new_map(self, layers):
+        oid = len(self.heap)
+        heap = dict(self.heap)
+        heap[oid] = tuple(layers)
+        return ("map", oid), self.set(heap=heap)
+
+    def extend_map(self, oid, layers):
+        heap = dict(self.heap)
+        heap[oid] = heap[oid] + tuple(layers)
+        return self.set(heap=heap)
+
+    def flaw(self, what):
+        return self.set(flaws=self.flaws + (what,))
+
+
+class PathComposition:
+    """What the tuples and mappings of a function are made of, per path class.  The function is followed along its
+    acyclic paths from the entry to a target node with an environment of abstract values — ('atom', text): a value
+    the function did not build (text with the local names substituted away); ('seq', parts): a concatenation of such
+    values; ('map', id): a mapping created here, with the layers that were poured into it in order — and, per
+    atom, what the branch tests taken so far say about it (None / empty / non-empty): a test on such a value splits
+    the path, a test on anything else is taken both ways.  In-place changes of a mapping the function did not
+    create are recorded as flaws."""
+    MUTATORS = ("update", "setdefault", "pop", "popitem", "clear", "__setitem__", "__delitem__")
+
+    def __init__(self, fa, seed_env, cap=3000):
+        self.fa = fa
+        self.seed = seed_env
+        self.cap = cap
+        self._stmt = None
+
+    # ---- values
+    def atom_text(self, e, st):
+        env = st.env
+
+        class T(ast.NodeTransformer):
+            def visit_Name(self, n):
+                v = env.get(n.id)
+                if isinstance(n.ctx, ast.Load) and v is not None:
+                    txt = v[1] if v[0] == "atom" else (v[1][0] if v[0] == "seq" and len(v[1]) == 1 else None)
+                    if txt is not None and not txt.startswith(("?", "<")):
+                        try:
+                            return ast.parse(txt, mode="eval").body
+                        except SyntaxError:
+                            pass
+                    return ast.Name(id="<%s:%s>" % (v[0], n.id), ctx=ast.Load())
+                return n
+
+        import copy
+        return A.norm(T().visit(copy.deepcopy(strip_cast(e))))
+
+    @staticmethod
+    def parts(v):
+        return v[1] if v[0] == "seq" else ((v[1],) if v[0] == "atom" else ("?",))
+
+    @staticmethod
+    def layers(v, st):
+        return st.heap[v[1]] if v[0] == "map" else ((v[1],) if v[0] == "atom" else ("?",))
+
+    def ev(self, e, st):
+        """[(value, state)]"""
+        e = strip_cast(e)
+        if isinstance(e, ast.Name):
+            v = st.env.get(e.id)
+            return [(v if v is not None else ("atom", e.id), st)]
+        if isinstance(e, ast.NamedExpr) and isinstance(e.target, ast.Name):
+            return [(v, s2.bind(e.target.id, v)) for (v, s2) in self.ev(e.value, st)]
+        if isinstance(e, (ast.Tuple, ast.List)) and not e.elts:
+            return [(("seq", ()), st)]
+        if isinstance(e, ast.Call) and isinstance(e.func, ast.Name) and e.func.id in ("tuple", "list") and not e.keywords and len(e.args) <= 1:
+            if not e.args:
+                return [(("seq", ()), st)]
+            return [((("seq", self.parts(v)) if v[0] != "map" else ("atom", "?")), s2) for (v, s2) in self.ev(e.args[0], st)]
+        if isinstance(e, ast.BinOp) and isinstance(e.op, ast.Add):
+            out = []
+            for (l, s1) in self.ev(e.left, st):
+                for (r, s2) in self.ev(e.right, s1):
+                    out.append((("seq", self.parts(l) + self.parts(r)), s2))
+            return out
+        if isinstance(e, ast.BoolOp) and isinstance(e.op, ast.Or) and len(e.values) >= 2:
+            rest = e.values[1] if len(e.values) == 2 else ast.BoolOp(op=ast.Or(), values=e.values[1:])
+            out = []
+            for (v, s1) in self.ev(e.values[0], st):
+                for (truth, s2) in self.truth(v, s1):
+                    if truth:
+                        out.append((v, s2))
+                    else:
+                        out += self.ev(rest, s2)
+            return out
+        if isinstance(e, ast.IfExp):
+            out = []
+            for (truth, s1) in self.decide(e.test, st):
+                out += self.ev(e.body if truth else e.orelse, s1)
+            return out
+        # mappings: {} / dict() / {**a, **b} / dict(a) / dict(a, **b) / a.copy() / copy.copy(a) / a | b
+        pieces = None
+        if isinstance(e, ast.Dict):
+            pieces = [(None, v) if k is None else ("item", k) for k, v in zip(e.keys, e.values)]
+        elif isinstance(e, ast.Call) and isinstance(e.func, ast.Name) and e.func.id == "dict" and len(e.args) <= 1:
+            pieces = [(None, a) for a in e.args] + [(None, k.value) if k.arg is None else ("item", k) for k in e.keywords]
+        elif isinstance(e, ast.Call) and A.call_attr(e) in ("copy", "deepcopy") and is_copy_of(e) is not None:
+            pieces = [(None, is_copy_of(e))]
+        elif isinstance(e, ast.BinOp) and isinstance(e.op, ast.BitOr):
+            pieces = [(None, e.left), (None, e.right)]
+        if pieces is not None:
+            outs = [((), st)]
+            for (kind, x) in pieces:
+                nxt = []
+                for (ls, s1) in outs:
+                    if kind == "item":
+                        nxt.append((ls + ("?item",), s1))
+                    else:
+                        for (v, s2) in self.ev(x, s1):
+                            nxt.append((ls + self.layers(v, s2), s2))
+                outs = nxt
+            res = []
+            for (ls, s1) in outs:
+                m, s2 = s1.new_map(ls)
+                res.append((m, s2))
+            return res
+        return [(("atom", self.atom_text(e, st)), st)]
+
+    # ---- tests
+    def truth(self, v, st):
+        """[(bool, state)]: the truthiness of a value"""
+        key = None
+        if v[0] == "atom":
+            key = v[1]
+        elif v[0] == "seq":
+            if not v[1]:
+                return [(False, st)]
+            key = v[1][0] if len(v[1]) == 1 else None
+        elif v[0] == "map":
+            ls = st.heap[v[1]]
+            if not ls:
+                return [(False, st)]
+            key = ls[0] if len(ls) == 1 else None
+        if key is None or key.startswith("?"):
+            return [(True, st), (False, st)]
+        out = []
+        for (truth, allowed) in ((True, (_FULL,)), (False, (_NONE, _EMPTY))):
+            s2 = st.restrict(key, allowed)
+            if s2 is not None:
+                out.append((truth, s2))
+        return out
+
+    def _split(self, v, st, when_true, when_false=None):
+        """[(bool, state)] for a test that holds exactly when the value's state is in `when_true` (and, where the
+        test cannot be evaluated on every state — len(None) —, fails exactly on `when_false`)"""
+        key = v[1] if v[0] == "atom" else (v[1][0] if v[0] == "seq" and len(v[1]) == 1 else None)
+        if v[0] == "seq" and not v[1]:
+            return [(_EMPTY in when_true, st)]
+        if v[0] == "map":
+            ls = st.heap[v[1]]
+            if not ls:
+                return [(_EMPTY in when_true, st)]
+            if len(ls) == 1 and not ls[0].startswith("?") and _NONE not in when_true:
+                key = ls[0]     # a copy is empty exactly when what it copies is
+        if key is None or key.startswith("?"):
+            return [(True, st), (False, st)]
+        out = []
+        for (truth, allowed) in ((True, when_true), (False, when_false if when_false is not None else _ALL3 - frozenset(when_true))):
+            s2 = st.restrict(key, allowed)
+            if s2 is not None:
+                out.append((truth, s2))
+        return out
+
+    def decide(self, t, st):
+        """[(bool, state)]: the outcomes of a branch test"""
+        t = strip_cast(t)
+        if isinstance(t, ast.UnaryOp) and isinstance(t.op, ast.Not):
+            return [(not b, s) for (b, s) in self.decide(t.operand, st)]
+        if isinstance(t, ast.BoolOp):
+            is_and = isinstance(t.op, ast.And)
+            cur = [(is_and, st)]
+            for v in t.values:
+                nxt = []
+                for (b, s) in cur:
+                    if b != is_and:
+                        nxt.append((b, s))      # short-circuited
+                    else:
+                        nxt += self.decide(v, s)
+                cur = nxt
+            return cur
+        if isinstance(t, ast.Call) and isinstance(t.func, ast.Name) and t.func.id == "bool" and len(t.args) == 1 and not t.keywords:
+            return self.decide(t.args[0], st)
+        if isinstance(t, ast.Compare) and len(t.ops) == 1:
+            op, l, r = t.ops[0], t.left, t.comparators[0]
+            if isinstance(op, (ast.Is, ast.IsNot, ast.Eq, ast.NotEq)) and (A.is_none(r) or A.is_none(l)):
+                x = l if A.is_none(r) else r
+                pos = isinstance(op, (ast.Is, ast.Eq))
+                out = []
+                for (v, s1) in self.ev(x, st):
+                    out += [(b if pos else not b, s2) for (b, s2) in self._split(v, s1, (_NONE,))]
+                return out
+            # len(x) <op> 0 / 1
+            def len_of(a):
+                return a.args[0] if isinstance(a, ast.Call) and isinstance(a.func, ast.Name) and a.func.id == "len" and len(a.args) == 1 else None
+            x, c, o = len_of(l), r, op
+            if x is None and len_of(r) is not None:
+                x, c = len_of(r), l
+                o = {ast.Lt: ast.Gt, ast.Gt: ast.Lt, ast.LtE: ast.GtE, ast.GtE: ast.LtE}.get(type(op), type(op))()
+            if x is not None and isinstance(c, ast.Constant) and c.value in (0, 1):
+                empty_when = {(ast.Eq, 0): True, (ast.NotEq, 0): False, (ast.Gt, 0): False, (ast.LtE, 0): True, (ast.GtE, 1): False, (ast.Lt, 1): True}.get((type(o), c.value))
+                if empty_when is not None:
+                    out = []
+                    for (v, s1) in self.ev(x, st):
+                        # (len() of None raises: no path continues from there)
+                        out += [(b if empty_when else not b, s2) for (b, s2) in self._split(v, s1, (_EMPTY,), (_FULL,))]
+                    return out
+            # x == () / x != {} ...
+            if isinstance(op, (ast.Eq, ast.NotEq)):
+                for (x, c) in ((l, r), (r, l)):
+                    if A.norm(c) in ("()", "[]", "{}", "tuple()", "list()", "dict()"):
+                        out = []
+                        for (v, s1) in self.ev(x, st):
+                            out += [(b if isinstance(op, ast.Eq) else not b, s2) for (b, s2) in self._split(v, s1, (_EMPTY,))]
+                        return out
+            return [(True, st), (False, st)]
+        if isinstance(t, (ast.Name, ast.Attribute, ast.Call, ast.NamedExpr, ast.IfExp, ast.Subscript)):
+            out = []
+            for (v, s1) in self.ev(t, st):
+                out += self.truth(v, s1)
+            return out
+        if isinstance(t, ast.Constant):
+            return [(bool(t.value), st)]
+        return [(True, st), (False, st)]
+
+    # ---- statements
+    def _mutate(self, recv, layers_of_args, st, what):
+        out = []
+        for (v, s1) in self.ev(recv, st):
+            if v[0] == "map":
+                out.append(s1.extend_map(v[1], layers_of_args(s1)))
+            else:
+                out.append(s1.flaw((what, v[1] if v[0] == "atom" else "?", self._stmt)))
+        return out
+
+    def step(self, a, st):
+        """the states after statement `a`"""
+        self._stmt = a
+        if isinstance(a, (ast.Assign, ast.AnnAssign)):
+            if getattr(a, "value", None) is None:
+                return [st]
+            targets = a.targets if isinstance(a, ast.Assign) else [a.target]
+            if len(targets) == 1 and isinstance(targets[0], (ast.Tuple, ast.List)) and isinstance(a.value, (ast.Tuple, ast.List)) \
+                    and len(targets[0].elts) == len(a.value.elts) and all(isinstance(x, ast.Name) for x in targets[0].elts):
+                cur = [([], st)]
+                for x in a.value.elts:
+                    cur = [(vs + [v], s2) for (vs, s1) in cur for (v, s2) in self.ev(x, s1)]
+                out = []
+                for (vs, s1) in cur:
+                    for (tn, v) in zip(targets[0].elts, vs):
+                        s1 = s1.bind(tn.id, v)
+                    out.append(s1)
+                return out
+            out = []
+            for (v, s1) in self.ev(a.value, st):
+                for t in targets:
+                    if isinstance(t, ast.Name):
+                        s1 = s1.bind(t.id, v)
+                    elif isinstance(t, ast.Subscript):
+                        s1 = self._mutate(t.value, lambda s_: ("?item",), s1, "item assignment")[0]
+                    elif isinstance(t, (ast.Tuple, ast.List)):
+                        for x in ast.walk(t):
+                            if isinstance(x, ast.Name):
+                                s1 = s1.bind(x.id, ("atom", "?"))
+                out.append(s1)
+            return out
+        if isinstance(a, ast.AugAssign):
+            if isinstance(a.target, ast.Name):
+                cur = st.env.get(a.target.id, ("atom", a.target.id))
+                if isinstance(a.op, ast.Add):
+                    return [s1.bind(a.target.id, ("seq", self.parts(cur) + self.parts(v))) for (v, s1) in self.ev(a.value, st)]
+                if isinstance(a.op, ast.BitOr):
+                    out = []
+                    for (v, s1) in self.ev(a.value, st):
+                        out += self._mutate(a.target, lambda s_, v=v: self.layers(v, s_), s1, "|=")
+                    return out
+                return [st.bind(a.target.id, ("atom", "?"))]
+            if isinstance(a.target, ast.Subscript):
+                return self._mutate(a.target.value, lambda s_: ("?item",), st, "item assignment")
+            return [st]
+        if isinstance(a, ast.Delete):
+            out = [st]
+            for t in a.targets:
+                if isinstance(t, ast.Subscript):
+                    out = [s2 for s1 in out for s2 in self._mutate(t.value, lambda s_: ("?item",), s1, "del")]
+            return out
+        if isinstance(a, ast.Expr) and isinstance(a.value, ast.Call) and isinstance(a.value.func, ast.Attribute) and a.value.func.attr in self.MUTATORS:
+            c = a.value
+            if c.func.attr == "update" and len(c.args) + len(c.keywords) == 1 and (c.args or c.keywords[0].arg is None):
+                src = c.args[0] if c.args else c.keywords[0].value
+                out = []
+                for (v, s1) in self.ev(src, st):
+                    out += self._mutate(c.func.value, lambda s_, v=v: self.layers(v, s_), s1, "update")
+                return out
+            return self._mutate(c.func.value, lambda s_: ("?item",), st, c.func.attr)
+        return [st]
+
+    def at(self, target, exprs):
+        """[(values of `exprs` at CFG node `target`, state)] over the path classes from the entry; None when
+        there are too many"""
+        fa, cfg = self.fa, self.fa.cfg
+        results = []
+        count = [0]
+        can = {n.id for n in cfg.nodes if target in cfg.reach([n.id])}
+
+        def go(n, onpath, st):
+            if count[0] > self.cap:
+                return
+            if n == target:
+                count[0] += 1
+                cur = [([], st)]
+                for x in exprs:
+                    cur = [(vs + [v], s2) for (vs, s1) in cur for (v, s2) in self.ev(x, s1)]
+                results.extend(cur)
+                return
+            nd = cfg.node(n)
+            edges = [(d, l) for (d, l) in cfg.succ[n] if l != "exc" and d in can and d not in onpath]
+            if nd.kind == "test":
+                loop = isinstance(fa.pm.get(nd.ast), ast.While)
+                for (b, s1) in ([(True, st), (False, st)] if loop else self.decide(nd.ast, st)):
+                    for (d, l) in edges:
+                        if l == ("T" if b else "F"):
+                            onpath.add(d)
+                            go(d, onpath, s1)
+                            onpath.discard(d)
+                return
+            states = [st]
+            if nd.kind == "stmt" and nd.ast is not None:
+                states = self.step(nd.ast, st)
+            elif nd.kind in ("for", "with", "except") and nd.ast is not None:
+                bound = nd.ast.target if nd.kind == "for" else None
+                names = [x.id for x in ast.walk(bound) if isinstance(x, ast.Name)] if bound is not None else []
+                if nd.kind == "with":
+                    names = [x.id for it in nd.ast.items if it.optional_vars is not None for x in ast.walk(it.optional_vars) if isinstance(x, ast.Name)]
+                for nm in names:
+                    st = st.bind(nm, ("atom", "?"))
+                states = [st]
+            for s1 in states:
+                for (d, l) in edges:
+                    onpath.add(d)
+                    go(d, onpath, s1)
+                    onpath.discard(d)
+
+        st0 = _PState({}, {}, {}, ())
+        for name, v in self.seed.items():
+            if v[0] == "newmap":
+                v, st0 = st0.new_map(v[1])
+            st0 = st0.bind(name, v)
+        go(cfg.entry, {cfg.entry}, st0)
+        return None if count[0] > self.cap else results
+
+
+def _partial_accumulates(pa, call, e_args, e_kwargs, varg, kwarg, XA, XK):
+    """On every path to the clone, the positional partials handed over are the existing ones followed by the new ones
+    and the keyword partials are the existing ones overlaid with the new ones, in a mapping of the function's own —
+    the existing ones may be left out only where the path has established that there are none; no mapping the
+    function did not create is changed in place.  Decided on the composition per path class, however it is spelled
+    (`x or ()` then `+=`, an if statement per case, copy-then-update, `{**a, **b}`, ...)."""
+    V, KW = "<new positional>", "<new keyword>"
+    pc = PathComposition(pa, {varg: ("seq", (V,)), kwarg: ("newmap", (KW,))})
+    ok = True
+    n = 0
+    for at in pa.nodes(call):
+        res = pc.at(at, [e_args, e_kwargs])
+        if res is None:
+            return False
+        for ((va, vk), st) in res:
+            n += 1
+            def made_of(got, want):
+                # `got` is `want` in order; an element may be left out where the path has established it is empty
+                left_out = [w for w in want if w not in got]
+                return [g for g in got] == [w for w in want if w in got] and all(st.facts.get(w, _ALL3) <= {_NONE, _EMPTY} for w in left_out)
+
+            ok = ok and made_of(pc.parts(va) if va[0] in ("seq", "atom") else ("?",), (XA, V))
+            ok = ok and made_of(pc.layers(vk, st) if vk[0] == "map" else ("?",), (XK, KW))
+            ok = ok and not st.flaws
+    return ok and n >= 1
+
+
 def _out_literals(node):
     """String pieces that end up in the text a statement builds: constants, and the literal parts of
     f-strings / str.format / % templates (not the placeholders); error messages are not output."""
@@ -747,21 +1161,34 @@ def check(ck):
               % A.short(rebinds[0], 60), f_.where(rebinds[0] if rebinds else None))
     pa = FA(ck, "base.MementoFunctionBase.partial")
     # containers that partial() mutates are fresh copies, never aliases of the parent reference's state
+    cw = [c for c in pa.calls("clone_with") if pa.nodes(c)]
+    varg = pa.fi.node.args.vararg.arg if pa.fi.node.args.vararg else None
+    kwarg_ = pa.fi.node.args.kwarg.arg if pa.fi.node.args.kwarg else None
+    # the states in which the clone is made, per path class (what was changed in place on the way is part of them)
+    at_clone = None
+    if len(cw) == 1 and varg is not None and kwarg_ is not None:
+        at_clone = []
+        pc_ = PathComposition(pa, {varg: ("seq", ("<new positional>",)), kwarg_: ("newmap", ("<new keyword>",))})
+        for i in pa.nodes(cw[0]):
+            r_ = pc_.at(i, [])
+            at_clone = None if (r_ is None or at_clone is None) else at_clone + [st_ for (_v, st_) in r_]
     for c in pa.calls():
         if A.call_attr(c) in ("update", "append", "extend", "setdefault", "insert") and isinstance(A.call_recv(c), ast.Name):
             nm = A.call_recv(c).id
+            st_c = pa.stmt_of(c)
+            # decided on the paths to the clone when the change lies on them: the receiver is a mapping of the function's own
+            on_paths = at_clone is not None and bool(pa.nodes(c)) and all(set(pa.nodes(cw[0])) & pa.cfg.reach([i]) for i in pa.nodes(c))
             for i in pa.nodes(c):
                 for d in pa.df.reaching(i, nm):
                     v = d.value
                     fresh = isinstance(v, (ast.Dict, ast.List, ast.DictComp, ast.ListComp)) or \
                         (isinstance(v, ast.Call) and A.call_attr(v) in ("dict", "list", "copy", "deepcopy")) or \
                         (isinstance(v, ast.IfExp) and all(isinstance(x, (ast.Dict, ast.List)) or (isinstance(x, ast.Call) and A.call_attr(x) in ("dict", "list", "copy")) for x in (v.body, v.orelse)))
+                    if not fresh and on_paths and isinstance(st_c, ast.Expr) and st_c.value is c:
+                        fresh = not any(f_[2] is st_c for st_ in at_clone for f_ in st_.flaws)
                     ck.ob(R3, pa.key(c, "mutates-fresh-copy:" + nm), fresh, "%s is a fresh copy before it is updated" % nm if fresh else
                           "`%s` updates `%s`, which can be the parent reference's own dict (`%s`): deriving a second partial silently changes the key "
                           "and the bound arguments of the first" % (A.short(c, 40), nm, A.short(v, 50)), pa.where(c))
-    cw = [c for c in pa.calls("clone_with") if pa.nodes(c)]
-    varg = pa.fi.node.args.vararg.arg if pa.fi.node.args.vararg else None
-    kwarg_ = pa.fi.node.args.kwarg.arg if pa.fi.node.args.kwarg else None
     okpa = len(cw) == 1 and A.kwarg(cw[0], "partial_args") is not None and A.kwarg(cw[0], "partial_kwargs") is not None and varg is not None and kwarg_ is not None
     if okpa:
         at = pa.nodes(cw[0])[0]
@@ -799,6 +1226,8 @@ def check(ck):
             elif isinstance(e, ast.Call) and isinstance(e.func, ast.Name) and e.func.id == "dict" and len(e.args) == 1 and len(e.keywords) == 1 and e.keywords[0].arg is None:
                 okk_ = _existing_or_empty(e.args[0], XK) and A.norm(e.keywords[0].value) == kwarg_
         okpa = oka_ and okk_
+        if not okpa:
+            okpa = _partial_accumulates(pa, cw[0], va_, vk_, varg, kwarg_, XA, XK)
     ck.ob(R3, pa.key(None, "accumulates"), okpa, "partial() appends positional and updates keyword partials on a clone" if okpa else
           "partial() no longer accumulates (existing partials + new ones) into the clone", pa.where())
     ck.run(check_typed_identity, ck, "C04.R4", ("reference", "base"))
